@@ -441,6 +441,74 @@ func genCi(r *core.Rand, n int) []core.Case {
 	return cs
 }
 
+// presence-vector length classes relative to the `need` = ceil(chunks/8) bytes of the file: empty, one byte short,
+// exact, longer by 1 byte, longer by many bytes
+func presLens(need int) []int {
+	short := need - 1
+	if short < 0 {
+		short = 0
+	}
+	return []int{0, short, need, need + 1, need + 9, need + 200}
+}
+
+// genCiMerge: multi-step ChunkInfoResp sequences on the SAME (root, overlay): the first acceptable vector is
+// stored (updateChunkInfo, first branch), every later one is merged into it (stored-vector branch: SetBytes),
+// with lengths equal to / shorter than / longer than (by 1, by many bytes) the stored one and empty, in all orders.
+func genCiMerge(r *core.Rand, n int) []core.Case {
+	var cs []core.Case
+	self := overlayOf("ci-self")
+	respOp := func(peer string, root, tgt boson.Address, v []byte, extra map[string][]byte, pct int) string {
+		pres := map[string][]byte{tgt.String(): v}
+		for k, x := range extra {
+			pres[k] = x
+		}
+		return "ci.resp " + peer + " " + gstream(r, pct, &cipb.ChunkInfoResp{RootCid: root.Bytes(), Target: tgt.Bytes(), Req: self.Bytes(), Presence: pres})
+	}
+	// (a) systematic: for every storable first length, every second length — each ordered pair on its own overlay
+	nchs := []int{11, 20, 8, 1, 64, 100, 17}
+	nch := nchs[r.Intn(len(nchs))]
+	need := (nch + 7) / 8
+	root := boson.NewAddress(core.GenBytes(uint64(r.Intn(3)+100), 32, 0))
+	for fi, first := range presLens(need)[2:] {
+		c := core.Case{ID: fmt.Sprintf("cim-pairs%d", fi), NT: true, Ops: []string{fmt.Sprintf("ci.file %s %d", core.Hex(root.Bytes()), nch)}}
+		for si, second := range presLens(need) {
+			tgt := overlayOf(fmt.Sprintf("ci-m%d-%d", fi, si))
+			c.Ops = append(c.Ops, respOp("ci-src1", root, tgt, r.Bytes(first), nil, 0), respOp("ci-src2", root, tgt, r.Bytes(second), nil, 0))
+		}
+		cs = append(cs, c)
+	}
+	// (b) random orders of 2-5 lengths on one or two overlays, optional running discovery, other keys alongside
+	for i := 0; i < n; i++ {
+		c := core.Case{ID: fmt.Sprintf("cim%d", i), NT: true}
+		nch := r.Pick([]int{1, 2, 7, 8, 9, 11, 16, 17, 20, 64, 100})
+		need := (nch + 7) / 8
+		root := boson.NewAddress(core.GenBytes(uint64(r.Intn(3)+100), 32, 0))
+		tgts := []boson.Address{overlayOf(names(r, "ci-src1", "ci-src2", "ci-x1")), overlayOf("ci-peerA")}
+		c.Ops = append(c.Ops, fmt.Sprintf("ci.file %s %d", core.Hex(root.Bytes()), nch))
+		if r.Chance(40) {
+			c.Ops = append(c.Ops, fmt.Sprintf("ci.find %s %s,%s", core.Hex(root.Bytes()), core.Hex(tgts[0].Bytes()), core.Hex(tgts[1].Bytes())))
+		}
+		ls := presLens(need)
+		for k := r.Range(2, 5); k > 0; k-- {
+			tgt := tgts[0]
+			if r.Chance(15) {
+				tgt = tgts[1]
+			}
+			l := ls[r.Intn(len(ls))]
+			if r.Chance(10) {
+				l = r.Range(0, need+3)
+			}
+			var extra map[string][]byte
+			if r.Chance(25) {
+				extra = map[string][]byte{overlayOf(names(r, "ci-src2", "ci-x2")).String(): r.Bytes(ls[r.Intn(len(ls))])}
+			}
+			c.Ops = append(c.Ops, respOp(names(r, "ci-src1", "ci-src2", "ci-peerA"), root, tgt, r.Bytes(l), extra, 4))
+		}
+		cs = append(cs, c)
+	}
+	return cs
+}
+
 // ---- routetab
 
 func genPath(r *core.Rand, pool [][]byte) *rtpb.Path {
@@ -619,6 +687,16 @@ func fixedCases() []core.Case {
 			fmt.Sprintf("ci.find %s %s", core.Hex(root.Bytes()), core.Hex(src.Bytes())),
 			"ci.resp ci-src1 " + h(&cipb.ChunkInfoResp{RootCid: root.Bytes(), Target: src.Bytes(), Req: self.Bytes(), Presence: map[string][]byte{src.String(): {0x0f}, "zz": {1}}}),
 			"ci.resp ci-src1 " + h(&cipb.ChunkInfoResp{RootCid: root.Bytes(), Target: src.Bytes(), Req: self.Bytes(), Presence: map[string][]byte{"abc": {1}}})}},
+		// seeded change C37-2 (missed before): a vector is stored for (root, src); a later response for the same pair with
+		// MORE presence bytes must be rejected by SetBytes' length check (a byte-wise merge indexes out of range in the
+		// worker goroutine); then equal / shorter / empty / much longer ones
+		{ID: "fix-presence-longer-second", NT: true, Ops: []string{fmt.Sprintf("ci.file %s 11", core.Hex(root.Bytes())),
+			"ci.resp ci-src1 " + h(&cipb.ChunkInfoResp{RootCid: root.Bytes(), Target: src.Bytes(), Req: self.Bytes(), Presence: map[string][]byte{src.String(): {0x0f, 0x00}}}),
+			"ci.resp ci-src1 " + h(&cipb.ChunkInfoResp{RootCid: root.Bytes(), Target: src.Bytes(), Req: self.Bytes(), Presence: map[string][]byte{src.String(): {0xff, 0x07, 0x01}}}),
+			"ci.resp ci-src2 " + h(&cipb.ChunkInfoResp{RootCid: root.Bytes(), Target: src.Bytes(), Req: self.Bytes(), Presence: map[string][]byte{src.String(): {0xf0, 0x01}}}),
+			"ci.resp ci-src1 " + h(&cipb.ChunkInfoResp{RootCid: root.Bytes(), Target: src.Bytes(), Req: self.Bytes(), Presence: map[string][]byte{src.String(): {0x01}}}),
+			"ci.resp ci-src1 " + h(&cipb.ChunkInfoResp{RootCid: root.Bytes(), Target: src.Bytes(), Req: self.Bytes(), Presence: map[string][]byte{src.String(): {}}}),
+			"ci.resp ci-src1 " + h(&cipb.ChunkInfoResp{RootCid: root.Bytes(), Target: src.Bytes(), Req: self.Bytes(), Presence: map[string][]byte{src.String(): make([]byte, 202)}})}},
 		{ID: "fix-multicast-sendreceive-extra-frame", NT: true, Ops: []string{fmt.Sprintf("mc.join %s sub=1", core.Hex(gid)),
 			"mc.message mc-far1 " + core.Hex(append(frame(&mcpb.GroupMsg{Gid: gid, Data: []byte("q"), Type: int32(multicast.SendReceive)}), rawFrame(nil)...)),
 			"mc.message mc-far1 " + core.Hex(append(frame(&mcpb.GroupMsg{Gid: gid, Data: []byte("q"), Type: int32(multicast.SendReceive)}), frame(&mcpb.GroupMsg{Data: []byte("x")})...))}},
@@ -639,5 +717,6 @@ func (prop) Gen(r *core.Rand, tier string) []core.Case {
 	cs = append(cs, genCi(r.Fork(), 70*k)...)
 	cs = append(cs, genRt(r.Fork(), 50*k, 4*k)...)
 	cs = append(cs, genMc(r.Fork(), 25*k)...)
+	cs = append(cs, genCiMerge(r.Fork(), 12*k)...) // last: the streams of the generators above stay what they were
 	return cs
 }
